@@ -1,9 +1,10 @@
 (** Entry point of the extracted runner: one checker per domain. *)
-From Verif Require Import Json Breaker CorrBreaker CorrMatch CorrLoc CorrPindex.
+From Verif Require Import Json Breaker CorrBreaker CorrMatch CorrLoc CorrPindex CorrJs.
 
 Definition check_case (domain : string) (c : json) : json :=
   if String.eqb domain "breaker" then check_breaker c
   else if String.eqb domain "match" then check_match c
   else if has_prefix "loc" domain then check_loc c
   else if String.eqb domain "pindex" then check_pindex c
+  else if String.eqb domain "js" then check_js c
   else JObj [("ok", JBool false); ("why", JStr ("unknown domain " ++ domain))].
